@@ -189,14 +189,14 @@ func Structures() []Entry {
 	add("attrs-flags", func() *schema.BodySchema {
 		return &schema.BodySchema{
 			Attributes: map[string]*schema.AttributeSchema{
-				"req":  {Constraint: schema.LiteralType{Type: cty.String}, IsRequired: true, Description: lang.Markdown("req d")},
-				"opt":  {Constraint: schema.LiteralType{Type: cty.Number}, IsOptional: true},
-				"comp": {Constraint: schema.LiteralType{Type: cty.String}, IsComputed: true},
-				"oc":   {Constraint: schema.LiteralType{Type: cty.Bool}, IsOptional: true, IsComputed: true},
-				"dep":  {Constraint: schema.LiteralType{Type: cty.String}, IsOptional: true, IsDeprecated: true},
-				"sens": {Constraint: schema.LiteralType{Type: cty.String}, IsOptional: true, IsSensitive: true},
-				"wo":   {Constraint: schema.LiteralType{Type: cty.String}, IsOptional: true, IsWriteOnly: true},
-				"dflt": {Constraint: schema.LiteralType{Type: cty.String}, IsOptional: true, DefaultValue: schema.DefaultValue{Value: cty.StringVal("dv")}},
+				"req":   {Constraint: schema.LiteralType{Type: cty.String}, IsRequired: true, Description: lang.Markdown("req d")},
+				"opt":   {Constraint: schema.LiteralType{Type: cty.Number}, IsOptional: true},
+				"comp":  {Constraint: schema.LiteralType{Type: cty.String}, IsComputed: true},
+				"oc":    {Constraint: schema.LiteralType{Type: cty.Bool}, IsOptional: true, IsComputed: true},
+				"dep":   {Constraint: schema.LiteralType{Type: cty.String}, IsOptional: true, IsDeprecated: true},
+				"sens":  {Constraint: schema.LiteralType{Type: cty.String}, IsOptional: true, IsSensitive: true},
+				"wo":    {Constraint: schema.LiteralType{Type: cty.String}, IsOptional: true, IsWriteOnly: true},
+				"dflt":  {Constraint: schema.LiteralType{Type: cty.String}, IsOptional: true, DefaultValue: schema.DefaultValue{Value: cty.StringVal("dv")}},
 				"clash": {Constraint: schema.LiteralType{Type: cty.String}, IsOptional: true},
 			},
 			Blocks: map[string]*schema.BlockSchema{
@@ -377,8 +377,8 @@ func Structures() []Entry {
 					depKey(nil, []schema.AttributeDependent{attrDepAddr("prov", lang.Address{lang.RootStep{Name: "p"}, lang.AttrStep{Name: "one"}})}): markerBody("m_prov", func(b *schema.BodySchema) {
 						b.DocsLink = &schema.DocsLink{URL: "https://example.com/prov"}
 					}),
-					depKey(nil, []schema.AttributeDependent{attrDep("num", cty.NumberIntVal(1))}): markerBody("m_num", nil),
-					depKey(nil, []schema.AttributeDependent{attrDep("flag", cty.True)}):         markerBody("m_flag", nil),
+					depKey(nil, []schema.AttributeDependent{attrDep("num", cty.NumberIntVal(1))}):                                       markerBody("m_num", nil),
+					depKey(nil, []schema.AttributeDependent{attrDep("flag", cty.True)}):                                                 markerBody("m_flag", nil),
 					depKey(nil, []schema.AttributeDependent{attrDep("kind", cty.StringVal("k1")), attrDep("num", cty.NumberIntVal(1))}): markerBody("m_k1num", nil),
 				},
 			},
@@ -589,6 +589,51 @@ func Structures() []Entry {
 		}
 	}, "r = root\n", "")
 
+	// --- modifiers of enclosing blocks: several levels, several labels
+	add("modifiers-deep", func() *schema.BodySchema {
+		return &schema.BodySchema{Blocks: map[string]*schema.BlockSchema{
+			"outer": {SemanticTokenModifiers: lang.SemanticTokenModifiers{"mo1", "mo2"}, Body: &schema.BodySchema{
+				Attributes: map[string]*schema.AttributeSchema{"oa": {Constraint: schema.LiteralType{Type: cty.String}, IsOptional: true, SemanticTokenModifiers: lang.SemanticTokenModifiers{"moa"}}},
+				Blocks: map[string]*schema.BlockSchema{
+					"inner": {SemanticTokenModifiers: lang.SemanticTokenModifiers{"mi"},
+						Labels: []*schema.LabelSchema{{Name: "type", SemanticTokenModifiers: lang.SemanticTokenModifiers{"ml-type"}}, {Name: "name", SemanticTokenModifiers: lang.SemanticTokenModifiers{"ml-name"}}, {Name: "third"}},
+						Body: &schema.BodySchema{
+							Attributes: map[string]*schema.AttributeSchema{"ia": {Constraint: schema.LiteralType{Type: cty.Number}, IsOptional: true, SemanticTokenModifiers: lang.SemanticTokenModifiers{"mia"}}},
+							Blocks: map[string]*schema.BlockSchema{"leaf": {SemanticTokenModifiers: lang.SemanticTokenModifiers{"mleaf1", "mleaf2", "mleaf3"},
+								Labels: []*schema.LabelSchema{{Name: "a", SemanticTokenModifiers: lang.SemanticTokenModifiers{"mla"}}, {Name: "b", SemanticTokenModifiers: lang.SemanticTokenModifiers{"mlb"}}},
+								Body:   &schema.BodySchema{Attributes: map[string]*schema.AttributeSchema{"la": {Constraint: schema.LiteralType{Type: cty.Bool}, IsOptional: true}}}}},
+						}},
+				},
+			}},
+		}}
+	},
+		"outer {\n  oa = \"x\"\n  inner \"aaa\" \"bbb\" \"ccc\" {\n    ia = 1\n    leaf \"p\" \"q\" {\n      la = true\n    }\n    leaf \"r\" \"s\" {\n    }\n  }\n  inner \"ddd\" \"eee\" \"fff\" {\n  }\n}\n",
+	)
+
+	// --- dependent body whose nested block has extensions of its own, under DynamicBlocks
+	add("dep-nested-ext", func() *schema.BodySchema {
+		setting := func() *schema.BlockSchema {
+			return &schema.BlockSchema{Body: &schema.BodySchema{Extensions: ext(false, false, false, true),
+				Attributes: map[string]*schema.AttributeSchema{"v": {Constraint: schema.AnyExpression{OfType: cty.String}, IsOptional: true}},
+				Blocks:     map[string]*schema.BlockSchema{"rule": {Body: &schema.BodySchema{Attributes: map[string]*schema.AttributeSchema{"w": strAttr(nil)}}}}}}
+		}
+		return &schema.BodySchema{Blocks: map[string]*schema.BlockSchema{
+			"resource": {Labels: []*schema.LabelSchema{{Name: "type", IsDepKey: true}, {Name: "name"}},
+				Body: &schema.BodySchema{Extensions: ext(true, false, true, false), Attributes: map[string]*schema.AttributeSchema{"st": strAttr(nil)}},
+				DependentBody: map[schema.SchemaKey]*schema.BodySchema{
+					depKey([]schema.LabelDependent{lbl(0, "aws")}, nil): {Blocks: map[string]*schema.BlockSchema{"setting": setting(), "plain": {Body: &schema.BodySchema{}}}},
+				}},
+			"data": {Labels: []*schema.LabelSchema{{Name: "type", IsDepKey: true}},
+				Body: &schema.BodySchema{},
+				DependentBody: map[schema.SchemaKey]*schema.BodySchema{
+					depKey([]schema.LabelDependent{lbl(0, "aws")}, nil): {Blocks: map[string]*schema.BlockSchema{"setting": setting()}},
+				}},
+		}}
+	},
+		"resource \"aws\" \"a\" {\n  setting {\n    v = self.v\n    rule {\n    }\n  }\n  dynamic \"setting\" {\n    for_each = []\n    content {\n    }\n  }\n}\ndata \"aws\" {\n  setting {\n    \n  }\n}\n",
+		"data \"aws\" {\n  setting {\n    rule {\n    }\n    \n  }\n}\nresource \"aws\" \"b\" {\n  plain {\n  }\n}\n",
+	)
+
 	// --- required-field prefilling: snippets with many tab stops --------------------------------
 	add("prefill-required", func() *schema.BodySchema {
 		reqBody := func() *schema.BodySchema {
@@ -607,7 +652,7 @@ func Structures() []Entry {
 				Blocks: map[string]*schema.BlockSchema{
 					"rb": {MinItems: 1, Labels: []*schema.LabelSchema{{Name: "l"}}, Body: &schema.BodySchema{
 						Attributes: map[string]*schema.AttributeSchema{"g": {Constraint: schema.LiteralType{Type: cty.String}, IsRequired: true}, "h": {Constraint: schema.LiteralType{Type: cty.Number}, IsRequired: true}},
-						Blocks: map[string]*schema.BlockSchema{"rbb": {MinItems: 2, Body: &schema.BodySchema{Attributes: map[string]*schema.AttributeSchema{"i": {Constraint: schema.LiteralType{Type: cty.String}, IsRequired: true}}}}},
+						Blocks:     map[string]*schema.BlockSchema{"rbb": {MinItems: 2, Body: &schema.BodySchema{Attributes: map[string]*schema.AttributeSchema{"i": {Constraint: schema.LiteralType{Type: cty.String}, IsRequired: true}}}}},
 					}},
 					"ob": {Body: &schema.BodySchema{}},
 				},
